@@ -43,7 +43,7 @@ def stream_case(case):
     ap = m.adb_protocol
     ap.STREAM_ID_LIMIT = 2 ** 16
     script = [{'open': 'OKAY', 'wrtes': list(st_['wrtes']), 'close': bool(st_['close']), 'echo': bool(st_.get('echo')),
-               'ack_delay_s': st_.get('ack_delay_s')} for st_ in case['streams']]
+               'ack_delay_s': st_.get('ack_delay_s'), 'payload_delay_s': st_.get('payload_delay_s')} for st_ in case['streams']]
     ap.ADB_MESSAGE_LOG = bool(case.get('msglog'))      # --adb_message_log: connect() wraps the transport in the logging adapter
     dev = fk.ScriptedAdbDevice(script, merge=list(case['merge']), maxdata=case['maxdata'], cond_factory=lambda: V.VCondition(sched=s),
                                max_block_s=None)
@@ -324,6 +324,14 @@ SLOW_ACK_CASES = [
      'merge': [], 'maxdata': md} for md in (4, 16) for n in (1, 2, 3, 4) for d in (0.3, 0.9, 1.5)]
 
 
+# the payload of a device WRTE arrives later than its header, later than the reader is prepared to wait: the read times out,
+# the retried read still gets the stream's bytes, and the other stream is not disturbed
+LATE_PAYLOAD_CASES = [
+    {'streams': [{'wrtes': ['abcd', 'efgh'], 'close': False, 'read_len': 0, 'read_timeout_ms': 500, 'write_len': 0, 'write_timeout_ms': None, 'payload_delay_s': d}] + (
+        [{'wrtes': ['xy'], 'close': False, 'read_len': 0, 'read_timeout_ms': None, 'write_len': 0, 'write_timeout_ms': None}] if two else []),
+     'merge': [0, 1, 0] if two else [0, 0], 'maxdata': 16, 'retry_timeouts': True} for d in (0.2, 0.8, 1.2) for two in (False, True)]
+
+
 STALL_CASES = [
     {'streams': [{'wrtes': ['abcd', 'efgh'], 'close': False, 'read_len': 0, 'read_timeout_ms': 2000, 'write_len': 0, 'write_timeout_ms': None},
                  {'wrtes': ['xy'], 'close': False, 'read_len': 0, 'read_timeout_ms': None, 'write_len': 0, 'write_timeout_ms': None}],
@@ -386,6 +394,12 @@ def run_job(job, acct):
     # a request/response service (the device speaks only once it has been written to), plain and with the message log on:
     # the writer is descheduled for 50 ms at every line of its write path, so the reader is already parked in the
     # transport read when the write arrives - the pipe is full duplex, the write goes through and the answer wakes the reader
+    for base in LATE_PAYLOAD_CASES:
+      r0, _ = check(base)
+      acct.case(base, True, r0.classes + ['late-payload'])
+      for sig, detail in r0.violations:
+        (acct.known if sig in known else acct.violation)(sig, base, detail)
+    acct.exhaustive_parts.append('payload of a device WRTE delayed 0.2/0.8/1.2 s against a 0.5 s read timeout, one and two streams')
     for base in SLOW_ACK_CASES:
       r0, _ = check(base)
       acct.case(base, True, r0.classes + ['slow-acks'])
